@@ -26,22 +26,22 @@ WIP = {
 TECH = "deterministic simulation with fault injection: seeded plans against a reference model/oracle, injected faults, minimised replayable plans"
 CHECKS = {
 "C13": dict(
-  text="seeded search over guard-operation histories (open, read, write, operator, then_into, switch_mode, nest to depth 4 - 6 in a quarter of the thorough plans -, drop/restore/forget/unwind) on buffers of 0..24 (thorough: ..96) colors over seven families of layout-compatible types ([f32;1], [f32;2], two of [f32;3] - around sRGB/CIE and around Oklab -, [f32;4], [f64;3], [f64;4]; slice and single-value guards, owned Vec/Box conversions), bit-compared after every step with a model built from the ordinary by-value conversions; plus an enumeration of every crash point (panic on the k-th element conversion) in every in-place entry point with drop-tracking probe colors of 1, 2, 3 and 4 components, and a Miri stage in the thorough tier (every crash point for lengths 0..=3, 60 histories stratified over end of life x slice/single-value guard x layout family); a clean batch is evidence, not proof",
+  text="seeded search over guard-operation histories (open, read, write, operator, then_into, switch_mode, nest to depth 4 - 6 in a quarter of the thorough plans -, drop/restore/forget/unwind) on buffers of 0..24 (thorough: ..96) colors over seven families of layout-compatible types ([f32;1], [f32;2], two of [f32;3] - around sRGB/CIE and around Oklab -, [f32;4], [f64;3], [f64;4]; slice and single-value guards, owned Vec/Box conversions), bit-compared after every step with a model built from the ordinary by-value conversions; plus an enumeration of every crash point (panic on the k-th element conversion) in every in-place entry point with drop-tracking probe colors of 0 (a zero-sized color), 1, 2, 3 and 4 components, and a Miri stage in the thorough tier (every crash point for lengths 0..=3, 60 histories stratified over end of life x slice/single-value guard x layout family); a clean batch is evidence, not proof",
   ref="DESIGN.md §4.1",
   note="the by-value conversions are the oracle by definition of the property; after a panicking conversion only ownership (no double drop, no use of dead values, caller-owned buffers still fully live) is checked because the documentation leaves the values unspecified; Miri is an additional memory-safety oracle when available; a simulator process killed by a signal is reported as a violation pinned on the crashing plan",
   tech="deterministic simulation with fault injection: seeded guard histories vs. by-value model, unwind/leak faults, exhaustive crash points in in-place maps, Miri as UB oracle"),
 "C18": dict(
-  text="seeded search over operation histories (<=50 ops, <=60 elements; a quarter of the thorough plans <=130 ops, <=250 elements) on every struct-of-arrays instantiation (26 color types x plain/alpha/alpha-of-another-element-type), refined step by step against a Vec model; iterators are driven through next/next_back/nth/nth_back/len/size_hint and ended by drop/exhaust/count/forget/last/fold/rfold/rev-skip-step_by; the Box/array/slice/mut-slice forms get up to three actions on one instance and are read back through themselves; iterator searching methods (find, rfind, position, rposition, any, all); ranged get/get_mut also where alpha has another element type; extend/collect sources with exact, absent and loose size hints, also sources that are not fused (reference: Vec fed from an identical source); cancel/leak/unwind/contract-panic faults placed inside live drains and iterators; a clean batch is evidence, not proof",
+  text="seeded search over operation histories (<=50 ops, <=60 elements; a quarter of the thorough plans <=130 ops, <=250 elements) on every struct-of-arrays instantiation (26 color types x plain/alpha/alpha-of-another-element-type), refined step by step against a Vec model; iterators are driven through next/next_back/nth/nth_back/len/size_hint and ended by drop/exhaust/count/forget/last/fold/rfold/rev-skip-step_by; the Box/array/slice/mut-slice forms get up to three actions on one instance and are read back through themselves; iterator searching methods (find, rfind, position, rposition, any, all) and comparing consumers (eq, ne, also against an iterator with an inexact size hint); ranged get/get_mut also where alpha has another element type; extend/collect sources with exact, absent and loose size hints, also sources that are not fused (reference: Vec fed from an identical source, also for how much of the source is taken); cancel/leak/unwind/contract-panic faults placed inside live drains and iterators; a clean batch is evidence, not proof",
   ref="DESIGN.md §4.2",
   note="trusts the Vec, slice and Drain of std as the reference; items are numbered so each component slot has its own value set; after a leaked drain only equal component lengths and an intact prefix are demanded (std leaves the amount lost unspecified)",
   tech="deterministic simulation with fault injection: seeded histories vs. Vec reference model, unwind/leak/cancel faults, minimised replayable plans"),
 "C19": dict(
-  text="the entropy source behind the Rng seam of palette is owned by the simulator: fair streams and faulty ones (stuck, alternating, low-entropy, counter, adversarially scripted extreme words) drive Standard, Uniform::new/new_inclusive and sample_single(_inclusive) of every sampling-capable color type, hue type and Alpha<_> in f32 and f64 (also alpha of the other float width than the color), with end points drawn inside the contract of rand (hue ends also whole turns apart and in descending raw order where the arc does not wrap); every sample is judged for containment (exact for pass-through components, conditioning-based tolerance for sqrt/cbrt components, arc membership on the normal forms for hues, equivalent HSV saturation/value for HWB); fair streams additionally feed a chi-square test (per coordinate and per coordinate pair) of the analytic volume CDF; evidence, not proof, and the statistical part cannot be seed-independent",
+  text="the entropy source behind the Rng seam of palette is owned by the simulator: fair streams and faulty ones (stuck, alternating, low-entropy, counter, adversarially scripted extreme words) drive Standard, Uniform::new/new_inclusive and sample_single(_inclusive) of every sampling-capable color type, hue type and Alpha<_> in f32 and f64 (also alpha of the other float width than the color, and clones of the samplers where the type is Clone), with end points drawn inside the contract of rand (hue ends also whole turns apart and in descending raw order where the arc does not wrap); every sample is judged for containment (exact for pass-through components, conditioning-based tolerance for sqrt/cbrt components, arc membership on the normal forms for hues, equivalent HSV saturation/value for HWB); fair streams additionally feed a chi-square test (per coordinate and per coordinate pair) of the analytic volume CDF on wide ranges, the full range and slices of the shape with one pinned component (for HWB: equal blackness, the gray axis, the cone surface); evidence, not proof, and the statistical part cannot be seed-independent",
   ref="DESIGN.md §4.3",
   note="rand 0.8 is trusted; end points keep a resolvable separation (UniformFloat::new of rand does not return for ranges a few ulps wide); chi-square threshold p<1e-9",
   tech="deterministic simulation with fault injection: simulated entropy source (fair, stuck, periodic, low-entropy, adversarial) behind the Rng seam, containment + volume-CDF oracles"),
 "C20": dict(
-  text="the hand-written serializer/deserializer adapters of palette run between the derived impls and a simulated format peer that varies every legal presentation (map or sequence, key forms, key order, size hints, missing alpha, JSON-like or RON-like answer to deserialize_option, rejection of unread entries) and fails at every call position, and between serde_json/ron and simulated byte streams with short reads/writes, EINTR, errors and EOF at every byte; every serializable color type in f32/f64 (+u8/u16), Alpha/PreAlpha, alpha of another scalar type, the hue types, ten user-defined serde shapes; the helpers as serde attributes on a user document; the color as payload of untagged / internally tagged / adjacently tagged user enums (serde's buffered Content replay) and among fourteen other palette colors in one untagged enum (nothing may come back that the document does not say); several colors in one document (vector, option, tuple, array, map, user struct with other colors in between, stream of documents) through JSON, serde_json::Value, RON and a simulated reader, each position round-trips and the document equals its parts; raw hue angles judged by PartialEq; round trip, stable-shape token tree, optional-alpha (JSON, RON, peer) and as_array/as_uint oracles; evidence, not proof",
+  text="the hand-written serializer/deserializer adapters of palette run between the derived impls and a simulated format peer that varies every legal presentation (map or sequence, key forms, key order, size hints, missing alpha, JSON-like or RON-like answer to deserialize_option, text-like or binary answer to is_human_readable, rejection of unread entries) and fails at every call position, and between serde_json/ron and simulated byte streams with short reads/writes, EINTR, errors and EOF at every byte; every serializable color type in f32/f64 (+u8/u16), Alpha/PreAlpha, alpha of another scalar type, the hue types, eleven user-defined serde shapes; deserialize_in_place agreeing with deserialize; as_uint up to 128 bits; the helpers as serde attributes on a user document; the color as payload of untagged / internally tagged / adjacently tagged user enums (serde's buffered Content replay) and among fourteen other palette colors in one untagged enum, and the document offered to every color family in turn (nothing may come back that the document does not say); several colors in one document (vector, option, tuple, array, map, user struct with other colors in between, stream of documents) through JSON, serde_json::Value, RON and a simulated reader, each position round-trips and the document equals its parts; raw hue angles judged by PartialEq; round trip, stable-shape token tree, optional-alpha (JSON, RON, peer) and as_array/as_uint oracles; evidence, not proof",
   ref="DESIGN.md §4.4",
   note="serde, serde_json and ron are trusted; text channels use exactly representable decimals; bincode-style length-limited sequences, serde(flatten) and what a color inside Alpha is told by is_human_readable under a binary peer are deliberately not judged (observed, in the evidence); documents palette never writes may be rejected or accepted, only a wrong value is a violation",
   tech="deterministic simulation with fault injection: simulated serde peer (presentation schedule, error at call k) and simulated I/O (short/EINTR/error/EOF) around the real adapters"),
